@@ -67,7 +67,7 @@ class Circle(Shape2D):
     @radius.setter
     def radius(self, value):
         if value > 0:
-            self._radius = value
+            self._radius = float(value)
         else:
             raise ValueError("Radius must be greater than zero.")
 
